@@ -25,6 +25,7 @@ import numpy as np
 import torch
 
 import common
+import bigbatch
 import lattice
 import obs_lib
 import tlc
@@ -83,6 +84,9 @@ def purity_exact(S, reg):
 
 def same_tensor(before, after):
     return before.dtype == after.dtype and before.shape == after.shape and torch.equal(before, after)
+
+
+BIG = [0]
 
 
 def bind_state(chk, S, tab, pairing, hist=None, counter=None):
@@ -144,6 +148,29 @@ def bind_state(chk, S, tab, pairing, hist=None, counter=None):
             continue
         if any(x is None for r_ in code for x in r_):      # a pairing that does not cover all ordered pairs
             continue
+        # a long sample list: every row paired with one and the same cyclic neighbour, values from the table
+        BIG[0] += 1
+        m = bigbatch.size(BIG[0] + ri)
+        ks = bigbatch.rows(BIG[0] * 7919 + N, N, m)
+        big = sp[ks]
+        bbefore = big.clone()
+        try:
+            out = SWAP(forms[ri % len(forms)][1]).apply(S.model, big)
+        except Exception as ex:
+            chk.violation(key0 + ":raised", dict(det, long_batch=m, raised=repr(ex)))
+            continue
+        chk.evaluations += 1
+        tcode = torch.tensor(code, dtype=torch.double)
+        kt = torch.tensor(ks)
+        prev_, next_ = tcode[kt, kt.roll(1)], tcode[kt, kt.roll(-1)]
+        atol = 1e-12 * float(tcode.abs().max())
+        if tuple(out.shape) != (m,) or not (torch.allclose(out, prev_, rtol=1e-9, atol=atol)
+                                             or torch.allclose(out, next_, rtol=1e-9, atol=atol)):
+            w = int((out - prev_).abs().argmax()) if tuple(out.shape) == (m,) else -1
+            chk.violation(key0 + ":long-batch", dict(det, rows=m, worst_row_vs_previous_neighbour=w,
+                                                     why="rows of a long batch are not each paired with their cyclic neighbour"))
+        if not same_tensor(bbefore, big):
+            chk.violation(key0 + ":batch-modified", dict(det, long_batch=m))
         # weighted double sum over independent pairs vs purity of the reduced state
         chk.evaluations += 1
         mean = sum(prob[a] * prob[b] * code[a][b] for a in range(N) for b in range(N))
